@@ -101,9 +101,9 @@ Proof.
   - apply bskip_total; assumption.
 Qed.
 
-Lemma bs_acc b t : wf b -> t < 256 -> len b < two31 -> acc_iff_ref (bs_extent b t) inl_none t b.
+Lemma bs_acc b t : wf b -> t < 256 -> acc_iff_ref (bs_extent b t) inl_none t b.
 Proof.
-  intros W Ht Hl. pose proof (bs_next_is_ref b t 64 W Ht Hl) as T.
+  intros W Ht. pose proof (bs_next_is_ref b t 64 W Ht) as T.
   pose proof (rp_good inl_none 64 t b) as G.
   unfold acc_iff_ref, bs_extent, ext_of, bs_next. rewrite depth_ok.
   split; [intros n; rewrite ref_inv|];
@@ -117,11 +117,10 @@ Proof.
 Qed.
 
 Lemma rf_acc src blen t :
-  wf (sdata src) -> spos src <= len (sdata src) -> sfinal src <> e_fuel ->
-  len (sdata src) - spos src < two31 -> t < 256 ->
+  wf (sdata src) -> spos src <= len (sdata src) -> sfinal src <> e_fuel -> t < 256 ->
   acc_iff_ref (rf_extent src blen t) inl_none t (drop (spos src) (sdata src)).
 Proof.
-  intros W Hp Hf Hl Ht. pose proof (rf_next_is_ref src blen t 64 W Hp Hf Hl Ht) as T.
+  intros W Hp Hf Ht. pose proof (rf_next_is_ref src blen t 64 W Hp Hf Ht) as T.
   set (r := drop (spos src) (sdata src)) in *.
   pose proof (rp_good inl_none 64 t r) as G.
   unfold acc_iff_ref, rf_extent, ext_of, rf_next. rewrite depth_ok.
@@ -136,12 +135,12 @@ Proof.
 Qed.
 
 Lemma pk_acc S c st rn0 t :
-  wf S -> SAt S c st -> len S - c < two31 -> t < 256 ->
+  wf S -> SAt S c st -> t < 256 ->
   acc_iff_ref (pk_extent st rn0 t) inl_none t (drop c S).
 Proof.
-  intros W A Hl Ht.
+  intros W A Ht.
   assert (Hc : c <= len S) by (destruct A as (F & CH & HI & _); eapply rinv_cursor_le; eauto).
-  pose proof (pk_next_is_ref_closed S c st t 64 rn0 W A Hc Hl Ht) as T.
+  pose proof (pk_next_is_ref_closed S c st t 64 rn0 W A Hc Ht) as T.
   set (r := drop c S) in *.
   pose proof (rp_good inl_none 64 t r) as G.
   unfold acc_iff_ref, pk_extent, ext_of, pk_next. rewrite depth_ok.
@@ -156,12 +155,12 @@ Proof.
 Qed.
 
 Lemma br_acc S c st t :
-  wf S -> SAt S c st -> len S - c < two31 -> t < 256 ->
+  wf S -> SAt S c st -> t < 256 ->
   acc_iff_ref (br_extent st t) inl_br t (drop c S).
 Proof.
-  intros W A Hl Ht.
+  intros W A Ht.
   assert (Hc : c <= len S) by (destruct A as (F & CH & HI & _); eapply rinv_cursor_le; eauto).
-  pose proof (brskip_is_ref_closed S c st t 64 W A Hc Hl Ht) as T.
+  pose proof (brskip_is_ref_closed S c st t 64 W A Hc Ht) as T.
   set (r := drop c S) in *.
   unfold acc_iff_ref, br_extent, br_skip. rewrite depth_ok.
   split; [intros n; rewrite ref_inv|];
@@ -174,88 +173,48 @@ Proof.
   - destruct T as [s [c' [E Hc']]]. rewrite E. right. eauto.
 Qed.
 
-(* ---------- FINDING: negative string length accepted by the template on >= 2 GiB inputs ---------- *)
-(* BytesSkipDecoder.Next(STRING) on  80 00 00 00 ++ 2^31 more bytes : the declared length has the
-   sign bit set; int(binary.BigEndian.Uint32(b)) is 2^31 on 64-bit platforms, "sz < 0" is dead,
-   SkipN(2^31) succeeds.  The grammar (and Binary.Skip) reject it as a negative size.
-   Confirmed on the real code (notes/findings_skipm.txt). *)
+(* ---------- regression of the repaired finding (commit 2c7f196) ----------
+   Before the repair the template read a STRING length as int(uint32) and BufferReader read container
+   counts as int(uint32): a size with the sign bit set followed by >= 2^31 bytes was ACCEPTED (the
+   statements below were refuted by 80 00 00 00 ++ 2^31 bytes / 02 80 00 00 00 ++ 2^31 bytes).  Now every
+   skipper is its reference instance for inputs of ANY length, so a negative declared size that the
+   parse reaches is rejected whatever follows it. *)
 Lemma len_repeat {A} (x : A) n : len (repeat x n) = N.of_nat n.
 Proof. unfold len. rewrite repeat_length. reflexivity. Qed.
 Lemma wf_repeat0 n : wf (repeat 0 n).
 Proof. unfold wf. apply Forall_forall. intros x Hx. apply repeat_spec in Hx. subst. unfold wfb. lia. Qed.
 
-Lemma bs_negative_string tail : len tail = two31 -> wf tail ->
+(* the former witnesses, with a tail of any length (2^31 included): grammar and skippers reject *)
+Lemma neg_string_rejected tail : wf tail ->
   let b := be 4 two31 ++ tail in
-  wf b /\ gparse T_STRING b = Err E_NEGSIZE /\ refparse inl_none 64 T_STRING b = Err E_NEGSIZE /\
-  bs_extent b T_STRING = Ok (4 + two31).
+  gparse T_STRING b = Err E_NEGSIZE /\ (exists c, bs_extent b T_STRING = Err c /\ c <> e_fuel) /\
+  (exists c, binary_skip b T_STRING = Err c /\ c <> e_fuel).
 Proof.
-  intros Hl W b.
-  assert (Hlen : len b = 4 + two31) by (unfold b; rewrite len_app, be_len, Hl; reflexivity).
+  intros W b.
+  assert (Wb : wf b) by (apply wf_app; [apply be_wf|exact W]).
   assert (Hu : unbe (take 4 b) = two31).
   { unfold b. rewrite be4_take. apply unbe_be4. apply two31_lt_two32. }
-  assert (Hg : gstring b = Err E_NEGSIZE).
-  { unfold gstring. unfold b at 1. rewrite be4_hasn. rewrite Hu. rewrite N.leb_refl. reflexivity. }
-  split; [apply wf_app; [apply be_wf|exact W]|].
-  split; [unfold gparse; destruct (length b) eqn:E; cbn [gp]; change (kind_of T_STRING) with KString; exact Hg|].
-  split.
-  { unfold refparse. rewrite rp_S. unfold lvl. change (kind_of T_STRING) with KString. rewrite Hg. reflexivity. }
-  assert (HR : bs_rep b (bs_new b) b).
-  { unfold bs_rep, bs_new. cbn [bs_b bs_n]. split; [reflexivity|]. split; [lia|]. split; [reflexivity|].
-    apply wf_app; [apply be_wf|exact W]. }
-  destruct (tskip_string_any bs_state bs_skipN (bs_rep b) (bs_SN_ok b) (S (length b)) 63 (bs_new b) b HR)
-    as [s' [E HR']].
-  { rewrite Hlen. unfold two31. lia. }
-  { rewrite Hu, len_drop, Hlen. lia. }
-  rewrite Hu in HR'.
-  unfold bs_extent, ext_of, bs_next. rewrite depth_ok. change 64%nat with (S 63).
-  rewrite (bs_finish b T_STRING (S 63) s' (4 + two31)); [|rewrite Hlen; lia|exact E|exact HR'].
-  cbn [snd]. rewrite take_len by (rewrite Hlen; lia). reflexivity.
+  assert (G : gparse T_STRING b = Err E_NEGSIZE).
+  { unfold gparse; destruct (length b) eqn:E; cbn [gp]; change (kind_of T_STRING) with KString;
+      unfold gstring; unfold b at 1; rewrite be4_hasn, Hu, N.leb_refl; reflexivity. }
+  split; [exact G|]. split.
+  - exact (z_rejects_malformed _ _ _ _ (bs_acc b T_STRING Wb ltac:(unfold T_STRING; lia)) _ G).
+  - exact (z_rejects_malformed _ _ _ _ (binary_acc b T_STRING Wb ltac:(unfold T_STRING; lia)) _ G).
 Qed.
 
-(* the full-strength statement about the template-based decoders (no bound on the input length) *)
-Definition tskip_is_ref_statement : Prop :=
-  forall b t, wf b -> t < 256 -> acc_iff_ref (bs_extent b t) inl_none t b.
-
-Lemma big_tail : exists tail, len tail = two31 /\ wf tail.
-Proof.
-  exists (repeat 0 (N.to_nat two31)). split; [rewrite len_repeat; apply N2Nat.id|apply wf_repeat0].
-Qed.
-
-Theorem tskip_is_ref_refuted : ~ tskip_is_ref_statement.
-Proof.
-  intros H. destruct big_tail as [tail [Hl Wt]].
-  destruct (bs_negative_string tail Hl Wt) as (W & _ & R & E).
-  specialize (H _ T_STRING W ltac:(unfold T_STRING; lia)). destruct H as [Hiff _].
-  apply Hiff in E. rewrite R in E. discriminate.
-Qed.
-
-(* ---------- FINDING: BufferReader.Skip accepts a container count with the sign bit set ---------- *)
-Definition brskip_is_ref_statement : Prop :=
-  forall S c st t, wf S -> SAt S c st -> t < 256 -> acc_iff_ref (br_extent st t) inl_br t (drop c S).
-
-Lemma br_negative_count tail : len tail = two31 -> wf tail ->
+Lemma neg_count_rejected tail : wf tail ->
   let S := 2 :: be 4 two31 ++ tail in
   let st := new_bytes_reader S (len S) in
-  wf S /\ SAt S 0 st /\ gparse T_LIST S = Err E_NEGSIZE /\ br_extent st T_LIST = Ok (5 + two31).
+  gparse T_LIST S = Err E_NEGSIZE /\ (exists c, br_extent st T_LIST = Err c /\ c <> e_fuel).
 Proof.
-  intros Hl W S st.
+  intros W S st.
   assert (WS : wf S).
   { unfold S. constructor; [unfold wfb; lia|]. apply wf_app; [apply be_wf|exact W]. }
   assert (A : SAt S 0 st) by (apply sat_new_bytes_reader; lia).
-  destruct (brskip_negative_count SAt sat_next_ok sat_next_short sat_skip_ok sat_skip_short
-              sat_peek_ok sat_peek_short sat_avail S 0 st two31 tail 63 WS A eq_refl
-              ltac:(split; [lia|apply two31_lt_two32]) Hl) as [G [st' [E Hr]]].
-  change (drop 0 S) with S in G.
-  repeat split; try assumption.
-  unfold br_extent, br_skip. rewrite depth_ok. change 64%nat with (Datatypes.S 63).
-  change T_LIST with 15. rewrite E. rewrite Hr. f_equal; try lia.
-Qed.
-
-Theorem brskip_is_ref_refuted : ~ brskip_is_ref_statement.
-Proof.
-  intros H. destruct big_tail as [tail [Hl Wt]].
-  destruct (br_negative_count tail Hl Wt) as (W & A & G & E).
-  specialize (H _ 0 _ T_LIST W A ltac:(unfold T_LIST; lia)).
-  change (drop 0 (2 :: be 4 two31 ++ tail)) with (2 :: be 4 two31 ++ tail) in H.
-  apply (z_sound _ _ _ _ H) in E as [h [_ G']]. rewrite G in G'. discriminate.
+  assert (G : gparse T_LIST S = Err E_NEGSIZE).
+  { unfold gparse. destruct (length S) eqn:E; [discriminate|]. unfold S at 1. cbn [gp].
+    change (kind_of T_LIST) with KList. cbv iota. rewrite be4_hasn. cbv zeta.
+    rewrite be4_take, unbe_be4 by apply two31_lt_two32. rewrite N.leb_refl. reflexivity. }
+  split; [exact G|].
+  exact (z_rejects_malformed _ _ _ _ (br_acc S 0 st T_LIST WS A ltac:(unfold T_LIST; lia)) _ G).
 Qed.
